@@ -219,7 +219,8 @@ def run(prop, tier, seed):
             if f.name.startswith("shared-write/") and files:
                 key = tuple(files)
                 if key not in sched_done:
-                    sched_done[key] = run_dynamic("schedule", {"files": files, "max_hits": 500 if tier == "quick" else 4000})
+                    sched_done[key] = run_dynamic("schedule", {"files": files, "max_hits": 300 if tier == "quick" else 1500,
+                                                               "time_budget": 60 if tier == "quick" else 300})
                 rec["native"] = sched_done[key]
                 confirmed = bool(sched_done[key].get("confirmed"))
             elif "slot-index-determines-the-key" in f.name or f.name.startswith("cache/"):
@@ -239,7 +240,7 @@ def run(prop, tier, seed):
         if prop == "C16":
             files = ["a5/math/vec3.py", "a5/geometry/spherical_polygon.py", "a5/projections/dodecahedron.py", "a5/projections/polyhedral.py",
                      "a5/projections/crs.py", "a5/core/cell.py"]
-            bounded["preemption_sweep"] = run_dynamic("schedule", {"files": files, "max_hits": 6000}, timeout=3000)
+            bounded["preemption_sweep"] = run_dynamic("schedule", {"files": files, "max_hits": 400, "time_budget": 600}, timeout=1500)
             bounded["real_threads"] = run_dynamic("threads", {"seconds": 20.0})
         else:
             bounded["sequence_sweep"] = run_dynamic("sequence", {"repo": REPO, "orders": 20}, timeout=3000)
